@@ -22,6 +22,9 @@ def run(run):
     run.negative_control_trace("trace/Trace_Time.tla", "trace/Trace_Time.cfg", small,
                                corrupt_first(lambda e: e.get("op") == "Round.i128" and e["out"]["kind"] == "ok", lambda e: bump_big(e["out"]["val"])))
     # toString with precision + rounding mode: round by the type's rule, then print (RoundedFormat = rounding operators o writer)
+    # the neighbouring multiple where whole days and a time part are rounded together (Duration.round relative to a date, PlainDateTime.until / since)
+    cases4, n4 = run.gen("mc/MC_RelativeRound.tla", "gen/Gen_C07_nudge.cfg", workers=8, name="nudge", timeout=1500)
+    run.replay(b, cases4, label="nudge")
     cases3, n3 = run.gen("mc/MC_RoundedFormat.tla", "gen/Gen_C07_tostring.cfg", workers=6, name="tostring")
     run.replay(b, cases3, label="tostring")
     tr2 = run.record(b, "c07f", 3000 if q else 40000, label="c07f")
